@@ -54,6 +54,12 @@ func (Prop) Describe() core.Description {
 	}
 }
 
+// EnumSize implements core.Property: nothing is enumerated.
+func (Prop) EnumSize(tier string) int { return 0 }
+
+// RunEnum implements core.Property.
+func (Prop) RunEnum(i int, o core.RunOpts) *core.Result { return nil }
+
 // Prelude implements core.Property.
 func (Prop) Prelude(o core.RunOpts) *core.Result { return core.NewResult() }
 
